@@ -368,7 +368,8 @@ fn reparse_check(ctx: &Ctx, who: &str, qi: usize, r: &Relation, text: &str, c2: 
     }
     if semantic && !ctx.refs[qi].has_random {
         let lq = q.to_lowercase();
-        if lq.contains(" limit ") || lq.contains(" offset ") {
+        // LIMIT / OFFSET select rows by order: comparable only under a total order (ORDER BY id)
+        if (lq.contains(" limit ") || lq.contains(" offset ")) && !lq.contains("order by id") {
             probe(ctx, "semantic_skipped_limit");
             return;
         }
